@@ -293,7 +293,7 @@ def shrink(case, still_fails, budget=120, seconds=None):
     cur = list(case)
     n = 2
     tries = 0
-    seconds = seconds or float(os.environ.get("VERIF_SHRINK_SECONDS", "150"))
+    seconds = seconds or float(os.environ.get("VERIF_SHRINK_SECONDS", "60"))
     t_end = time.time() + seconds
     while len(cur) >= 2 and tries < budget and time.time() < t_end:
         size = max(1, len(cur) // n)
